@@ -305,7 +305,7 @@ func (c *hCtx) checkFailing() {
 		if w.bytes == 50*125000 {
 			sample = 125000
 		}
-		for _, off := range []int{1, sample + 1, 7*sample + sample/2, w.bytes - 1} {
+		for _, off := range []int{1, sample + 1, 7*sample + sample/2} {
 			c.resp.Cases[name]++
 			data := goodBytes(c.req.Seed+11, w.bytes)
 			if sample == 2500 {
